@@ -360,6 +360,13 @@ def run(ctx):
                 rhs = strip(kids(w)[1])
                 if literal(rhs) in (True, False) or any(x["k"] == "DeclRefExpr" and x.get("d") == tv["d"] for x in walk(rhs)):
                     continue
+                # `ok = check(item); if (!ok) break;` (or V in the loop condition) is an accumulation too: the loop ends at the first failure
+                stops = any(x["k"] == "IfStmt" and any(y["k"] == "DeclRefExpr" and y.get("d") == tv["d"] for y in walk(kids(x)[0])) and
+                            any(y["k"] in ("BreakStmt", "ReturnStmt") for y in walk(kids(x)[1])) for x in walk(lp)) or \
+                    (lp["k"] in ("ForStmt", "WhileStmt", "DoStmt") and any(y["k"] == "DeclRefExpr" and y.get("d") == tv["d"]
+                                                                           for c_ in kids(lp)[:-1] if c_ is not None and c_["k"] not in ("DeclStmt", "CompoundStmt") for y in walk(c_)))
+                if stops:
+                    continue
                 used_after = any(x["k"] == "DeclRefExpr" and x.get("d") == tv["d"] and x["i"] not in inside and f.cfg.position(x) and f.cfg.position(w) and
                                  f.cfg.find_path(f.cfg.position(w), lambda b, i, e, x=x: e == x["i"], lambda b, i, e: False) is not None for x in f.walk())
                 R.ob("C22-R5", not used_after, f.q, "verdict:`%s` assigned in a loop and read after it" % tv.get("n", "?"), f.site(w),
